@@ -67,6 +67,7 @@ class Link:
         self.established = lambda: False
         self.tap: Optional[Callable[[int, bytes], None]] = None  # sees every datagram put on the wire
         self.dead = [False, False]
+        self.drop_tap: Optional[Callable[[int, bytes], None]] = None  # sees every datagram the link drops
 
     def heal(self) -> None:
         self.healed = True
@@ -85,6 +86,8 @@ class Link:
         peer = 1 - side
         if kind == "x":
             self.dropped[side] += 1
+            if self.drop_tap:
+                self.drop_tap(side, data)
             if self.established():
                 self.faults_after_established += 1
             return
@@ -184,6 +187,8 @@ class Session:
         self.meter_budget: Optional[Callable[[int, bytes], int]] = None  # per-datagram work budget (C05)
         self.max_work = 0
         self.extra_op: Optional[Callable[[int, dict], None]] = None  # handler for op kinds the simulator does not know
+        self.on_attach: Optional[Callable] = None  # fn(rec, side, channel) when a channel object becomes known
+        self.after_each_op: Optional[Callable] = None  # fn(n, op) after every program step (sampling point)
 
     # ------------------------------------------------------------------
     def _chan_by_obj(self, obj: Any) -> Optional[tuple]:
@@ -196,6 +201,8 @@ class Session:
     def _attach(self, rec: ChannelRec, side: int, ch: RTCDataChannel) -> None:
         rec.objs[side] = ch
         rec.states[side].append(ch.readyState)
+        if self.on_attach:
+            self.on_attach(rec, side, ch)
 
         def on_open() -> None:
             rec.events[side].append("open")
@@ -401,6 +408,8 @@ class Session:
                 except Exception as exc:
                     self.api_errors.append((n, "stop", repr(exc), exc))
             await asyncio.sleep(0)
+            if self.after_each_op:
+                self.after_each_op(n, op)
         await start()
         if self.after_ops:
             await self.after_ops(self)
@@ -430,13 +439,18 @@ class Session:
         if kind == "create":
             side = op["side"] % 2
             neg = op.get("neg_id")
+            if op.get("reuse") is not None and self.channels:
+                # take the id of an earlier channel (meant for channels that have been closed)
+                old = self.channels[op["reuse"] % len(self.channels)]
+                oid = next((o.id for o in old.objs.values() if o.id is not None), None)
+                op = dict(op, id=oid, reused_from=old.idx)
             params = RTCDataChannelParameters(
                 label=op.get("label", ""), protocol=op.get("protocol", ""), ordered=bool(op.get("ordered", True)),
                 maxRetransmits=op.get("mr"), maxPacketLifeTime=op.get("mlt"),
                 negotiated=neg is not None, id=neg if neg is not None else op.get("id"))
             rec = ChannelRec(idx=len(self.channels), creator=side, params=dict(op), created_at_op=n)
+            ch = RTCDataChannel(self.sctp[side], params)  # may raise ValueError (id in use): then there is no channel
             self.channels.append(rec)
-            ch = RTCDataChannel(self.sctp[side], params)
             self._attach(rec, side, ch)
             if neg is not None:
                 ch2 = RTCDataChannel(self.sctp[1 - side], RTCDataChannelParameters(
